@@ -162,6 +162,8 @@ func renderStmts(ss []stmt, ind string, depth int, out *[]string) {
 			*out = append(*out, ind+"raise KeyError('boom')")
 		case "retv":
 			*out = append(*out, ind+"return "+pyLiteral(s.Val))
+		case "rstop":
+			*out = append(*out, fmt.Sprintf("%sraise StopIteration(%d)", ind, s.V))
 		case "yf":
 			switch s.Then {
 			case "unpack":
